@@ -8,6 +8,9 @@ C10.modstate   : no function writes module-level state (global, globals(), store
 C10.crossmod   : import-time writes into a table owned by another module only write pairs the
                  owner itself establishes.
 C10.nondet     : no non-deterministic API; directory listings are sorted.
+C10.inputmut   : no emitter mutates the interface description it is handed (directly, through a helper, a lambda
+                 mapped over its items, or a shallow copy that still shares the parameter mappings) — otherwise a
+                 second call with the same object, or any other conversion run afterwards on it, sees another input.
 """
 
 import ast
@@ -54,7 +57,7 @@ def run(ctx):
     ]
     index.func("cdd.shared.parse.utils.parser_utils.merge_params")
     index.func("cdd.shared.ast_utils.infer_imports")
-    for rule in (_setorder, _mutdefault, _modstate, _crossmod, _nondet):
+    for rule in (_setorder, _mutdefault, _modstate, _crossmod, _nondet, _inputmut):
         ctx.section(rule, ctx)
 
 
@@ -772,3 +775,96 @@ def state_slice(ctx, rule, roots, min_reach=5, prefix="state_"):
     view = ctx.view(lambda w: getattr(w, "qual", None) in reach, rule=rule, prefix=prefix)
     _modstate(view)
     _mutdefault(view)
+
+
+_IM_CACHE = {}
+
+
+def input_mutation(index):
+    """the whole-package input-mutation summaries (computed once per run)"""
+    from ..inputmut import InputMut
+
+    if id(index) not in _IM_CACHE:
+        _IM_CACHE.clear()
+        _IM_CACHE[id(index)] = InputMut(index)
+    return _IM_CACHE[id(index)]
+
+
+def emitter_entries(index):
+    """[(Func, 'intermediate_repr')]: public functions of the `cdd.<format>.emit` modules that take an interface description"""
+    out = []
+    for f in index.nontest_funcs():
+        if f.outer is not None or f.cls is not None or f.short.startswith("_"):
+            continue
+        if f.mod.name.rpartition(".")[2] != "emit" or ".utils" in f.mod.name:
+            continue
+        if "intermediate_repr" in f.params:
+            out.append((f, "intermediate_repr"))
+    return out
+
+
+def parser_entries(index):
+    """[(Func, first parameter)]: public functions of the `cdd.<format>.parse` modules (they are handed a syntax tree)"""
+    out = []
+    for f in index.nontest_funcs():
+        if f.outer is not None or f.cls is not None or f.short.startswith("_") or not f.params:
+            continue
+        if f.mod.name.rpartition(".")[2] != "parse" or ".utils" in f.mod.name:
+            continue
+        out.append((f, f.params[0]))
+    return out
+
+
+def inputmut_rule(ctx, rule, entries, why, objects_only=False):
+    """
+    every (function, parameter) of `entries` leaves the parameter's object graph alone. With `objects_only` (the
+    parsers, whose input is a syntax tree and whose result is a fresh dict holding parts of it) only mutations of a
+    place reached through an attribute count (`node.args.insert(...)`, `node.name = ...`): stores into dicts cannot
+    be told apart from stores into the result being built, since untyped strings taken from the tree keep a view.
+    """
+    im = input_mutation(ctx.index)
+    ctx.count("inputmut_summaries", len(im.muts))
+    ctx.count("inputmut_fixpoint_rounds", im.rounds)
+    for f, p in entries:
+        m = im.mutates(f.qual, p)
+        if objects_only:
+            m = {L: w for L, w in m.items() if w[2]}
+        if not m:
+            ctx.ob(rule, f, "parameter `{}` is not mutated".format(p), True)
+            continue
+        seen = set()
+        for L in sorted(m):
+            chain = im.chain(f.qual, p, L)
+            leaf = chain.rpartition(" -> ")[2]
+            leaf_key = leaf.partition(" ")[2] + " in " + leaf.partition(":")[0]
+            if leaf_key in seen:
+                continue
+            seen.add(leaf_key)
+            ctx.ob(
+                rule,
+                f,
+                "`{}` mutated by {}".format(p, leaf_key),
+                False,
+                "the object handed in as `{}` is mutated (nesting level {}): {} — {}".format(p, L, chain, why),
+                line=getattr(m[L][0], "lineno", None),
+            )
+
+
+def _inputmut(ctx):
+    entries = emitter_entries(ctx.index)
+    ctx.floor("emitters taking an interface description", len(entries), 8)
+    inputmut_rule(
+        ctx,
+        "C10.inputmut",
+        entries,
+        "a second emission from the same object, or any conversion run on it afterwards, no longer sees the same input",
+    )
+    parsers = parser_entries(ctx.index)
+    ctx.floor("parsers taking a syntax tree", len(parsers), 8)
+    inputmut_rule(
+        ctx,
+        "C10.inputmut",
+        parsers,
+        "parsing the same tree a second time, or emitting it afterwards, no longer sees the same input",
+        objects_only=True,
+    )
